@@ -178,8 +178,14 @@ unsigned hwloc_get_closest_objs (struct hwloc_topology *topology, struct hwloc_o
   if (!src->cpuset)
     return 0;
 
-  src_nbobjects = topology->level_nbobjects[src->depth];
-  src_objs = topology->levels[src->depth];
+  if (src->depth < 0) {
+    /* memory objects (they have a cpuset) are in special levels with negative depths */
+    src_nbobjects = topology->slevels[HWLOC_SLEVEL_FROM_DEPTH(src->depth)].nbobjs;
+    src_objs = topology->slevels[HWLOC_SLEVEL_FROM_DEPTH(src->depth)].objs;
+  } else {
+    src_nbobjects = topology->level_nbobjects[src->depth];
+    src_objs = topology->levels[src->depth];
+  }
 
   parent = src;
   while (stored < max) {
